@@ -5,7 +5,7 @@
 From Coq Require Import List Arith Lia Bool NArith.
 From Verif Require Import Base.Res Base.Text Gen.GenTokens Gen.GenPrec Model.Lexer Model.Literals Model.ExprParser
   Model.StParser Model.DeclParser Model.StInstance Proofs.StExprProofs Proofs.StStmtProofs Proofs.StInstanceProofs Proofs.DeclProofs
-  Proofs.DeclInstanceProofs.
+  Proofs.TypeProofs Proofs.DeclInstanceProofs.
 Import ListNotations.
 Close Scope N_scope.
 Open Scope nat_scope.
@@ -243,6 +243,153 @@ Qed.
 Example ex_lib_parse :
   match parse_lib_tokens (flat_lib [WU ex_ws ex_unit1; WU ex_ws ex_unit2] ++ ex_ws) with
   | O3Parsed [u1; u2] => u_kind u1 = UFb /\ u_kind u2 = UProgram /\ u_body u2 = [] /\ List.length (u_decls u1) = 4
+  | _ => False
+  end.
+Proof. vm_compute. repeat split. Qed.
+
+(* ---- libraries with TYPE blocks ---- *)
+Notation rtb := (stblock token).
+Notation rwf_tb := (wf_tb token tok_class is_int_ty).
+Notation rflat_tb := (flat_tb token).
+Notation rerase_tb := (erase_tb token tok_class t_text tok_num ty_name).
+
+Inductive selem := SeTypes (b : rtb) | SeUnit (u : sunit).
+Definition flat_e (e : selem) : list token := match e with SeTypes b => rflat_tb b | SeUnit u => flat_u u end.
+Definition wf_e (e : selem) : Prop := match e with SeTypes b => rwf_tb b | SeUnit u => wf_u u end.
+Definition erase_e (e : selem) : elem := match e with SeTypes b => ETypes (rerase_tb b) | SeUnit u => EUnit (erase_u u) end.
+Definition size_e (e : selem) : nat := match e with SeTypes b => size_tb token b | SeUnit u => size_u u end.
+
+Inductive swe := WE (w : list token) (e : selem).
+Definition flat_we (x : swe) : list token := match x with WE w e => w ++ flat_e e end.
+Definition flat_lib2 (l : list swe) : list token := List.concat (map flat_we l).
+Definition wf_we (x : swe) : Prop := match x with WE w e => rtriv w /\ wf_e e end.
+Definition erase_we (x : swe) : elem := match x with WE _ e => erase_e e end.
+
+Lemma flat_e_skip e r : wf_e e -> st_skip (flat_e e ++ r) = flat_e e ++ r.
+Proof.
+  destruct e as [b|u]; cbn [wf_e flat_e].
+  - intros (Hk & _). unfold flat_tb. cbn [app]. apply skip_solid. unfold solid. rewrite Hk. discriminate.
+  - apply flat_u_skip.
+Qed.
+
+Lemma elements_spelled l : Forall wf_we l -> forall acc wend F n, rtriv wend ->
+  (forall x, In x l -> match x with WE _ e => size_e e + 1 <= F end) -> List.length l < n ->
+  elements F n acc (flat_lib2 l ++ wend) = L2Ok (acc ++ map erase_we l) wend.
+Proof.
+  induction l as [|[w e] l IH]; intros Hl acc wend F n Hwend HF Hn.
+  - destruct n as [|n]; [cbn in Hn; lia|]. cbn [flat_lib2 map List.concat app elements]. rewrite (skip_all_triv wend Hwend).
+    cbn [type_block parse_unit]. rewrite app_nil_r. reflexivity.
+  - destruct n as [|n]; [cbn in Hn; lia|]. cbn [List.length] in Hn.
+    pose proof (Forall_inv Hl) as (Hw & He). pose proof (Forall_inv_tail Hl) as Hl'.
+    unfold flat_lib2. cbn [map List.concat flat_we]. fold (flat_lib2 l).
+    replace (((w ++ flat_e e) ++ flat_lib2 l) ++ wend) with (w ++ flat_e e ++ (flat_lib2 l ++ wend))
+      by (repeat (rewrite <- app_assoc; cbn [app]); reflexivity).
+    cbn [elements]. unfold st_skip at 1 2. rewrite (skip_app_triv token tok_class w _ Hw). fold (st_skip (flat_e e ++ flat_lib2 l ++ wend)).
+    rewrite (flat_e_skip e _ He).
+    pose proof (HF (WE w e) (or_introl eq_refl)) as HFe. cbn in HFe.
+    assert (IHn : forall acc', elements F n acc' (flat_lib2 l ++ wend) = L2Ok (acc' ++ map erase_we l) wend)
+      by (intro acc'; apply IH; try assumption; try lia; intros x Hx; apply HF; right; exact Hx).
+    destruct e as [b|u]; cbn [wf_e flat_e erase_e size_e] in *.
+    + rewrite (type_block_at token tok_class t_text tok_num ty_name is_int_ty b (flat_lib2 l ++ wend) F He) by lia.
+      rewrite IHn. cbn [map erase_we erase_e]. rewrite <- app_assoc. reflexivity.
+    + destruct He as (Hk & Hrest). destruct (class_of_kw u Hk) as (Ckw & _).
+      assert (Ef : type_block token tok_class t_text tok_num ty_name is_int_ty F (flat_u u ++ flat_lib2 l ++ wend) = DFail).
+      { unfold flat_u. cbn [app]. apply type_block_fails. rewrite Ckw. reflexivity. }
+      rewrite Ef. rewrite (parse_unit_spelled u (flat_lib2 l ++ wend) F (conj Hk Hrest)) by lia.
+      rewrite IHn. cbn [map erase_we erase_e]. rewrite <- app_assoc. reflexivity.
+Qed.
+
+Lemma scoped_e e : wf_e e -> rscoped (flat_e e).
+Proof. destruct e; cbn [wf_e flat_e]; [apply scoped_tb | apply scoped_u]. Qed.
+
+Lemma scoped_lib2 l : Forall wf_we l -> rscoped (flat_lib2 l).
+Proof.
+  induction 1 as [|[w e] l (Hw & He) _ IH]; [apply scoped_nil|].
+  unfold flat_lib2. cbn [map List.concat flat_we]. fold (flat_lib2 l).
+  apply scoped_app; [apply scoped_app; [apply scoped_triv; exact Hw | apply scoped_e; exact He] | exact IH].
+Qed.
+
+Lemma size_e_len e : size_e e <= 3 * List.length (flat_e e).
+Proof.
+  destruct e as [b|u]; cbn [size_e flat_e]; [|apply size_u_len]. pose proof (size_tb_len token b). lia.
+Qed.
+
+Lemma flat_lib2_len l x : In x l -> match x with WE _ e => List.length (flat_e e) <= List.length (flat_lib2 l) end.
+Proof.
+  induction l as [|[w e] l IH]; [intros []|]. unfold flat_lib2. cbn [map List.concat flat_we]. fold (flat_lib2 l).
+  destruct x as [w' e']. intros [E | Hx]; repeat rewrite app_length.
+  - injection E as -> ->. lia.
+  - specialize (IH Hx). change (List.length (flat_e e') <= List.length (flat_lib2 l)) in IH. lia.
+Qed.
+
+Lemma flat_e_pos e : wf_e e -> 1 <= List.length (flat_e e).
+Proof. destruct e as [b|u]; cbn [flat_e]; intros _; [unfold flat_tb | unfold flat_u]; cbn [List.length]; lia. Qed.
+
+Lemma lib2_len l : Forall wf_we l -> List.length l <= List.length (flat_lib2 l).
+Proof.
+  induction 1 as [|[w e] l (Hw & He) _ IH]; [apply Nat.le_refl|]. unfold flat_lib2. cbn [map List.concat flat_we List.length]. fold (flat_lib2 l).
+  repeat rewrite app_length. pose proof (flat_e_pos e He). lia.
+Qed.
+
+Theorem parse_lib2_spelled : forall (l : list swe) wend, Forall wf_we l -> rtriv wend ->
+  parse_lib2_tokens (flat_lib2 l ++ wend) = O4Parsed (map erase_we l).
+Proof.
+  intros l wend Hl Hwend. unfold parse_lib2_tokens.
+  assert (Hsc : in_scope token tok_class (flat_lib2 l ++ wend) = true).
+  { apply in_scope_scoped; [apply scoped_lib2; exact Hl|]. unfold in_scope.
+    pose proof (scoped_triv token tok_class wend Hwend false []) as S. rewrite app_nil_r in S. rewrite S. destruct (is_nil token wend); reflexivity. }
+  rewrite Hsc.
+  rewrite (elements_spelled l Hl [] wend _ _ Hwend).
+  - cbn [app]. rewrite (skip_all_triv wend Hwend). reflexivity.
+  - intros [w e] Hx. pose proof (size_e_len e) as B. pose proof (flat_lib2_len l (WE w e) Hx) as B2.
+    change (List.length (flat_e e) <= List.length (flat_lib2 l)) in B2. rewrite app_length. lia.
+  - pose proof (lib2_len l Hl). rewrite app_length. lia.
+Qed.
+
+Corollary parse_lib2_respelled : forall (l l' : list swe) wend wend', Forall wf_we l -> rtriv wend -> Forall wf_we l' -> rtriv wend' ->
+  map erase_we l = map erase_we l' -> parse_lib2_tokens (flat_lib2 l ++ wend) = parse_lib2_tokens (flat_lib2 l' ++ wend').
+Proof. intros. rewrite !parse_lib2_spelled by assumption. congruence. Qed.
+
+Corollary parse_lib2_fuel : forall (l : list swe) wend, Forall wf_we l -> rtriv wend -> parse_lib2_tokens (flat_lib2 l ++ wend) <> O4Fuel.
+Proof. intros. rewrite parse_lib2_spelled by assumption. discriminate. Qed.
+
+(* a concrete TYPE block:  TYPE Lvl : INT ( -1 .. 5 ) := 2 ; Col : ( r , g ) ; Arr : ARRAY [ 1 .. 2 ] OF BOOL ; Al : Col ; END_TYPE *)
+Definition ex_si (v : N) : StStmtProofs.sint token := SiPlain token (tkk KDigits [(48 + v)%N]).
+Definition ex_tblock : rtb :=
+  mkTBlock token (tkk KType []) ex_ws
+    (TsSome token
+       (StSubrange token (tkk KIdentifier [76%N]) ex_ws (tkk KColon [58%N]) ex_ws (tkk KInt []) ex_ws (tkk KLeftParen [40%N]) ex_ws
+          (SRange token (SiMinus token (tkk KMinus [45%N]) [] (tkk KDigits [49%N])) ex_ws (tkk KRange [46%N; 46%N]) ex_ws (ex_si 5))
+          ex_ws (tkk KRightParen [41%N]) (DfSome token _ ex_ws (tkk KAssignment [58%N; 61%N]) ex_ws (ex_si 2)))
+       [ TmMore token ex_ws (tkk KSemicolon [59%N]) ex_ws
+           (StEnum token (tkk KIdentifier [67%N]) ex_ws (tkk KColon [58%N]) ex_ws (tkk KLeftParen [40%N]) ex_ws
+              (mkNames token (tkk KIdentifier [114%N]) [NmMore token ex_ws (tkk KComma [44%N]) ex_ws (tkk KIdentifier [103%N])])
+              ex_ws (tkk KRightParen [41%N]) (DfNone token _));
+         TmMore token ex_ws (tkk KSemicolon [59%N]) ex_ws
+           (StArray token (tkk KIdentifier [65%N]) ex_ws (tkk KColon [58%N]) ex_ws (tkk KArray []) ex_ws (tkk KLeftBracket [91%N]) ex_ws
+              (RsSome token (SRange token (ex_si 1) ex_ws (tkk KRange [46%N; 46%N]) ex_ws (ex_si 2)) []) ex_ws (tkk KRightBracket [93%N]) ex_ws
+              (tkk KOf []) ex_ws (tkk KBool []));
+         TmMore token ex_ws (tkk KSemicolon [59%N]) ex_ws
+           (StLate token (tkk KIdentifier [66%N]) ex_ws (tkk KColon [58%N]) ex_ws (tkk KIdentifier [67%N])) ]
+       ex_ws (tkk KSemicolon [59%N]))
+    ex_ws (tkk KEndType []).
+Example ex_tblock_wf : rwf_tb ex_tblock.
+Proof.
+  assert (T : rtriv ex_ws) by (repeat constructor).
+  unfold ex_tblock. cbn -[ex_ws].
+  repeat match goal with |- _ /\ _ => split | |- Forall _ _ => constructor | |- rtriv ex_ws => exact T | |- _ = _ => reflexivity | |- _ <> _ => discriminate end.
+  all: try exact T. all: try reflexivity. all: try (repeat constructor).
+Qed.
+Example ex_lib2_wf : Forall wf_we [WE ex_ws (SeTypes ex_tblock); WE ex_ws (SeUnit ex_unit2)].
+Proof.
+  assert (T : rtriv ex_ws) by (repeat constructor).
+  constructor; [split; [exact T | exact ex_tblock_wf]|]. constructor; [|constructor].
+  split; [exact T|]. exact (proj2 (Forall_inv (Forall_inv_tail ex_lib_wf))).
+Qed.
+Example ex_lib2_parse :
+  match parse_lib2_tokens (flat_lib2 [WE ex_ws (SeTypes ex_tblock); WE ex_ws (SeUnit ex_unit2)] ++ ex_ws) with
+  | O4Parsed [ETypes [TdSubrange _ _ lo hi (Some d); TdEnum _ vs None; TdArray _ [_] _; TdLate _ _]; EUnit u] =>
+      lo = (true, 1%N) /\ hi = (false, 5%N) /\ d = (false, 2%N) /\ List.length vs = 2 /\ u_kind u = UProgram
   | _ => False
   end.
 Proof. vm_compute. repeat split. Qed.
